@@ -304,6 +304,13 @@ WORKBOOKS = {
         formulas={'CX1': ('SumR', 'A1:A2'), 'CX2': ('Plus', ['CX1'], 1)},
         texts={'CX1': '=SUM(A1:CV101)'},
         ranges={'A1:A2': [['A1'], ['A2']]}),
+    # a sheet of one row: A:A resolves to the single (blank) cell A1, B:B to the
+    # single formula cell B1
+    'onecell': dict(
+        inputs={'A1': None},
+        formulas={'B1': ('Plus', ['A1'], 1), 'C1': ('SumR', 'A:A'), 'D1': ('SumR', 'B:B'),
+                  'E1': ('Plus', ['C1', 'D1'], 0)},
+        aliases={'A:A': 'A1', 'B:B': 'B1'}),
     # C08: an input which is blank when the model is trimmed, read directly and
     # through a range
     'blankin': dict(
